@@ -24,7 +24,7 @@ RULE = ('Runs are (a) coupled: stub precipitation world (1-2 phases, 1-4 solve c
         'Non-trivial = at least 10 host steps with precipitates (a), at least 10 grain-growth steps (b), at least 20 evaluated points (c); distinct = distinct record digest; '
         'signature = (kind, iterators, calls, drag regime / contributions enabled).')
 ASSUMPTIONS = ['Grain clock compared with the host clock with tolerance 4 ulp x (steps+1) (the nested solve advances by differences of host times).',
-               'Third moment of the grain distribution equals 1 to 1e-12 after every step; pre-normalisation drift below 1e-3 per step; frozen structure compared at 1e-12 relative (normalisation multiplies by 1/M3).',
+               'Third moment of the grain distribution equals 1 to 1e-12 after every step; pre-normalisation drift below 1e-2 per step (counter reports the maximum seen); a dip of the mean size is allowed up to the renormalisation of the volume drift of that step; frozen structure compared at 1e-12 relative (normalisation multiplies by 1/M3).',
                'Mixed-dislocation formulas are compared with the edge/screw variants at 1% (the published constants are rounded).',
                'Strength formulas are evaluated at visited and generated (r, Ls): a sample, not a sweep.']
 COMPONENTS = {'real': ['kawin.precipitation.coupling.Strength.StrengthModel', 'kawin.precipitation.coupling.GrainGrowth.GrainGrowthModel (nested DESolver run per host step)', 'kawin.GenericModel coupling slot', 'full KWN model in coupled runs'],
@@ -247,8 +247,10 @@ def run_grain(rec, F, cnt, sig):
         sig.add(rec['it'])
     nsteps = len(gg.time) - 1
     cnt['grain_steps'] = nsteps
-    for d in drift[1:]:
-        if abs(d - 1) > 1e-3:
+    # (the tap is installed after the distribution was loaded: drift[k] is the pre-normalisation volume of step k+1)
+    cnt['max_volume_drift_1e-6'] = int(max([abs(d - 1) for d in drift] + [0.0]) * 1e6)
+    for d in drift:
+        if abs(d - 1) > 1e-2:
             F.add('C18.grain_volume_drift', f'total grain volume changed by {d - 1!r} in one step before normalisation', what='volume')
             break
     m3 = float(np.sum(gg.pbm.PSD * gg.pbm.PSDsize ** 3))
@@ -259,9 +261,14 @@ def run_grain(rec, F, cnt, sig):
         F.add('C18.grain_time_increasing', 'grain-growth time history not strictly increasing', what='clock')
     if rec['zf'] == 0:
         a = np.asarray(gg.avgR, dtype=float)
-        bad = np.nonzero(np.diff(a) < -1e-9 * a[:-1])[0]
+        # the explicit scheme lets the total volume drift slightly per step and the model renormalises it ("numerical errors will lead
+        # to small changes in volume"): a renormalisation by 1/M3 with M3 < 1 lowers cbrt(M3/M0) by (1-M3)/3, which is not grain shrinkage
+        dr = np.array((drift + [1.0] * len(a))[:len(a)], dtype=float)
+        allow = np.maximum(0.0, 1.0 - dr[:len(a) - 1]) / 3 * 1.05 + 1e-9
+        dec = (a[:-1] - a[1:]) / a[:-1]
+        bad = np.nonzero(dec > allow[:len(dec)])[0]
         if len(bad):
-            F.add('C18.mean_size_decreases', f'no pinning: mean grain size fell from {a[bad[0]]!r} to {a[bad[0] + 1]!r} at step {bad[0] + 1}', what='mean')
+            F.add('C18.mean_size_decreases', f'no pinning: mean grain size fell from {a[bad[0]]!r} to {a[bad[0] + 1]!r} at step {bad[0] + 1} (relative {dec[bad[0]]:.2e}, volume renormalisation explains {allow[bad[0]]:.2e})', what='mean')
     if rec['zf'] > 1.0 and gg.pbm.bins == len(x0):
         if not np.allclose(np.asarray(gg.pbm.PSD), x0, rtol=1e-12, atol=0):
             F.add('C18.not_frozen', f'drag {rec["zf"]} x the freezing level but the grain distribution changed (max rel change {float(np.max(np.abs(gg.pbm.PSD - x0) / np.maximum(x0, 1e-300)))!r})', what='frozen')
